@@ -178,6 +178,7 @@ func (s *Server) registerConnection(conn net.Conn) bool {
 			}
 		}
 
+		vhook("cm.reject", "conn", conn, "count", s.connCount, "max", tuning.MaxConnections)
 		return false
 	}
 
@@ -186,6 +187,7 @@ func (s *Server) registerConnection(conn net.Conn) bool {
 		lastActivity: time.Now(),
 	}
 	s.connCount++
+	vhook("cm.accept", "conn", conn, "count", s.connCount, "max", tuning.MaxConnections)
 
 	if s.options.Debug {
 		s.logger.Printf("New connection accepted (total: %d)", s.connCount)
@@ -230,6 +232,7 @@ func (s *Server) unregisterConnection(conn net.Conn) {
 		if _, stillExists := s.activeConns[conn]; stillExists {
 			delete(s.activeConns, conn)
 			s.connCount--
+			vhook("cm.unreg", "conn", conn, "count", s.connCount)
 
 			if s.options.Debug {
 				s.logger.Printf("Connection closed (total: %d)", s.connCount)
@@ -294,6 +297,7 @@ func (s *Server) cleanupIdleConnections() {
 	// Close idle connections and unregister them
 	// The sync.Once in unregisterConnection ensures this happens exactly once
 	for _, conn := range idleConns {
+		vhook("cm.reap", "conn", conn)
 		conn.Close()
 		s.unregisterConnection(conn)
 	}
@@ -728,6 +732,7 @@ func (s *Server) handleConnectionLoop(conn net.Conn, procHandler *NFSProcedureHa
 			connRateLimiter.CleanupConnection(connID)
 		}
 	}()
+	vhook("cl.start", "conn", conn)
 
 	for {
 		select {
@@ -863,6 +868,7 @@ func (s *Server) handleConnectionLoop(conn net.Conn, procHandler *NFSProcedureHa
 // Stop stops the NFS server
 func (s *Server) Stop() error {
 	s.cancel() // Signal all goroutines to stop
+	vhook("sv.stop.cancel", "srv", s)
 
 	// Stop portmapper if running
 	if s.portmapper != nil {
@@ -881,6 +887,7 @@ func (s *Server) Stop() error {
 
 	// Close all active connections
 	s.closeAllConnections()
+	vhook("sv.stop.closed", "srv", s)
 
 	// Wait for all goroutines to finish with timeout
 	done := make(chan struct{})
@@ -891,8 +898,10 @@ func (s *Server) Stop() error {
 
 	select {
 	case <-done:
+		vhook("sv.stop.returned", "srv", s, "ok", true)
 		return nil
 	case <-time.After(5 * time.Second):
+		vhook("sv.stop.returned", "srv", s, "ok", false)
 		return fmt.Errorf("timeout waiting for server shutdown")
 	}
 }
